@@ -973,6 +973,12 @@ func (c *Ctx) startMesh() modeling.Mesh {
 
 // opsFor biases the choice towards operations the mesh's topology admits (rejections still occur)
 func (c *Ctx) opsFor(m modeling.Mesh, all []string) string {
+	switch m.Topology() {
+	case modeling.LineTopology, modeling.LineStripTopology, modeling.LineLoopTopology:
+		if c.Rng.Intn(3) == 0 {
+			return "laplacian"
+		}
+	}
 	if m.Topology() == modeling.TriangleTopology && c.Rng.Intn(4) == 0 {
 		// triangle meshes: the operations that rewrite indices after dropping vertices / faces
 		return []string{"weld", "weld", "removeunref", "removenull", "split", "setindices", "unweld"}[c.Rng.Intn(7)]
@@ -988,9 +994,9 @@ func (c *Ctx) opsFor(m modeling.Mesh, all []string) string {
 		case "flip", "weld", "removenull", "split", "smoothnormals", "flatnormals":
 			ok = m.Topology() == modeling.TriangleTopology
 		case "laplacian":
-			// line and line-loop neighbour tables are not modelled (and an empty line loop makes
-			// VertexNeighborTable index m.indices[0]); see notes/C03.md
-			ok = m.Topology() == modeling.TriangleTopology || m.Topology() == modeling.LineStripTopology
+			// every topology with a neighbour table: triangle, line, line strip, line loop (the EMPTY line loop panics in
+			// VertexNeighborTable on the clean tree: compared as "panic", notes/C03.md)
+			ok = m.Topology() != modeling.PointTopology && m.Topology() != modeling.QuadTopology
 		case "crop":
 			ok = m.Topology() == modeling.PointTopology
 		case "filter":
@@ -999,9 +1005,6 @@ func (c *Ctx) opsFor(m modeling.Mesh, all []string) string {
 			ok = m.Topology() != modeling.PointTopology || c.Rng.Intn(4) == 0
 		}
 		if ok || c.Rng.Intn(10) == 0 {
-			if name == "laplacian" && (m.Topology() == modeling.LineTopology || m.Topology() == modeling.LineLoopTopology) {
-				continue
-			}
 			return name
 		}
 	}
@@ -1060,7 +1063,7 @@ func (c *Ctx) noteFloatOnly(op string, m modeling.Mesh, attr string, iters int) 
 			}
 		}
 	case "laplacian":
-		if iters < 1 || (m.Topology() != modeling.TriangleTopology && m.Topology() != modeling.LineStripTopology) {
+		if iters < 1 || m.Topology() == modeling.PointTopology || m.Topology() == modeling.QuadTopology {
 			return
 		}
 		ref := make([]bool, d.Len())
@@ -1069,9 +1072,15 @@ func (c *Ctx) noteFloatOnly(op string, m modeling.Mesh, attr string, iters int) 
 				ref[idx.At(t)], ref[idx.At(t+1)], ref[idx.At(t+2)] = true, true, true
 			}
 		} else if idx.Len() >= 2 {
-			for t := 0; t < idx.Len(); t++ {
+			k := idx.Len()
+			if m.Topology() == modeling.LineTopology {
+				k -= k % 2
+			}
+			for t := 0; t < k; t++ {
 				ref[idx.At(t)] = true
 			}
+		} else if idx.Len() == 1 && m.Topology() == modeling.LineLoopTopology {
+			ref[idx.At(0)] = true // Link(first, last) links the single vertex to itself
 		}
 		for _, r := range ref {
 			if !r {
@@ -1129,6 +1138,60 @@ func (c *Ctx) genBranchCase() branchCase {
 	b.y = b.base.Append(b.q)
 	b.ySnap = meshStr(b.y)
 	return b
+}
+
+// filterTopologySweep: FilterFloat1..4 (plain functions) and FilterFloat1..4Transformer on a small mesh of EVERY topology
+// that carries attributes of all four widths. Both entry points must reject everything but point clouds.
+func (c *Ctx) filterTopologySweep(emit func(r opRun, m modeling.Mesh)) {
+	for _, topo := range topoAll {
+		n := 4
+		idx := []int{0, 1, 2, 3}
+		if topo == modeling.TriangleTopology {
+			idx = []int{0, 1, 2, 2, 1, 3}
+		}
+		f1 := make([]float64, n)
+		f2 := make([]vector2.Float64, n)
+		f3 := make([]vector3.Float64, n)
+		f4 := make([]vector4.Float64, n)
+		for i := 0; i < n; i++ {
+			x := float64(10 + i)
+			f1[i], f2[i], f3[i], f4[i] = x, vector2.New(x, 1), vector3.New(x, float64(i*i%3), 2), vector4.New(x, 1, 2, 3)
+		}
+		m := modeling.NewMesh(topo, idx).SetFloat1Attribute("A1", f1).SetFloat2Attribute("A2", f2).SetFloat3Attribute("A3", f3).SetFloat4Attribute("A4", f4)
+		ms := meshStr(m)
+		thr := 12.0
+		for w := 1; w <= 4; w++ {
+			w := w
+			name := fmt.Sprintf("A%d", w)
+			args := fmt.Sprintf("%d %s %s %s", w, name, F(thr), ms)
+			plain := func() []modeling.Mesh {
+				switch w {
+				case 1:
+					return one(meshops.FilterFloat1(m, name, func(v float64) bool { return v < thr }))
+				case 2:
+					return one(meshops.FilterFloat2(m, name, func(v vector2.Float64) bool { return v.X() < thr }))
+				case 3:
+					return one(meshops.FilterFloat3(m, name, func(v vector3.Float64) bool { return v.X() < thr }))
+				}
+				return one(meshops.FilterFloat4(m, name, func(v vector4.Float64) bool { return v.X() < thr }))
+			}
+			transformer := func() []modeling.Mesh {
+				switch w {
+				case 1:
+					return tr(meshops.FilterFloat1Transformer{Attribute: name, Filter: func(v float64) bool { return v < thr }}, m)
+				case 2:
+					return tr(meshops.FilterFloat2Transformer{Attribute: name, Filter: func(v vector2.Float64) bool { return v.X() < thr }}, m)
+				case 3:
+					return tr(meshops.FilterFloat3Transformer{Attribute: name, Filter: func(v vector3.Float64) bool { return v.X() < thr }}, m)
+				}
+				return tr(meshops.FilterFloat4Transformer{Attribute: name, Filter: func(v vector4.Float64) bool { return v.X() < thr }}, m)
+			}
+			c.Note("filter-sweep:plain")
+			emit(runOp("filter", args, false, plain), m)
+			c.Note("filter-sweep:transformer")
+			emit(runOp("filter", args, false, transformer), m)
+		}
+	}
 }
 
 // emptyAppends: Append with an EMPTY receiver and / or an EMPTY argument across all topology pairs. The topology check
